@@ -345,7 +345,11 @@ def check(prop: str, tier: str, only: str = "") -> int:
                     path = write_replay_record(prop, c.name, fn, args, kwargs, rep, state_msg)
                     entry["replay"] = rep
                     entry["replay_file"] = os.path.relpath(path, ROOT)
-                    if rep.get("reproduced") is True:
+                    if rep.get("spurious"):
+                        verdict = "inconclusive"
+                        entry["why"] = "counterexample reproduces only on a map outside the property's hypothesis (" + str(rep.get("spurious")) + ")"
+                        n_cex -= 1
+                    elif rep.get("reproduced") is True:
                         if c.expect.startswith("known:") and c.expect[6:] in known_open:
                             k = known_open[c.expect[6:]]
                             known_lines.append(f"KNOWN-FINDING: property={prop} {k['what']}")
